@@ -1324,9 +1324,9 @@ pub fn execute(plan: &PipelinePlan, prop: &'static str) -> Outcome<PipelinePlan>
         for (n_done, body) in sh.observations.iter() {
             out.count("all_replies_checked", 1);
             let want = if *n_done == 0 { "[]".to_string() } else { sh.shadow_tables[*n_done - 1].clone() };
-            if *body != want {
+            if *body != want && c12::canonical_all(body) != c12::canonical_all(&want) {
                 let next = sh.shadow_tables.get(*n_done);
-                let loc = if next == Some(body) { "update-visible-before-completion" } else { "half-applied-or-foreign-state" };
+                let loc = if next.map_or(false, |n| c12::canonical_all(n) == c12::canonical_all(body)) { "update-visible-before-completion" } else { "half-applied-or-foreign-state" };
                 let b: Value = serde_json::from_str(body).unwrap_or(Value::Null);
                 let w: Value = serde_json::from_str(&want).unwrap_or(Value::Null);
                 viols.push(Violation::new("c12.5-atomic", loc, format!("pipeline: an /all reply taken after {} completed updates differs from the sequential table: reply {} vs sequential {}", n_done, c12::first_diff_entry(&b, &w), c12::first_diff_entry(&w, &b))));
